@@ -19,6 +19,7 @@ mod h_prog;
 mod h_simplify;
 mod h_sound;
 mod h_string;
+mod h_temperature;
 mod h_token;
 mod session;
 mod sym;
@@ -55,6 +56,7 @@ const ENTRIES: &[(&str, Entry)] = &[
     ("h_c19_add_text", h_datetime::h_c19_add_text),
     ("h_c15_string", h_string::h_c15_string),
     ("h_c14_integer", h_number::h_c14_integer),
+    ("h_c23_temperature", h_temperature::h_c23_temperature),
     ("h_c10_parse", h_parse::h_c10_parse),
     ("h_c18_step", h_list::h_c18_step),
     ("h_c18_hist", h_list::h_c18_hist),
